@@ -58,12 +58,16 @@ class Ctx:
             rec = {"kind": e[0], "target": e[1], "ids": list(e[2]), "caller": caller, "start": len(self.log),
                    "before": [inv.get(id(o), -1) for o in target.doers]}
             self.efflog.append(rec)
-            if e[0] == "ext":
-                target.extend(lst)
-                self.ev("ExtRet", caller)
-            else:
-                target.remove(lst)
-                self.ev("RemRet", caller)
+            try:
+                if e[0] == "ext":
+                    target.extend(lst)
+                    self.ev("ExtRet", caller)
+                else:
+                    target.remove(lst)
+                    self.ev("RemRet", caller)
+            except BaseException:
+                rec["after_raise"] = [inv.get(id(o), -1) for o in target.doers]
+                raise
             rec["end"] = len(self.log) - 1
             rec["after"] = [inv.get(id(o), -1) for o in target.doers]
 
@@ -275,6 +279,25 @@ def run_prog(prog):
         except Exception as ex:
             raised = "escape:" + type(ex).__name__
             ctx.log.append(("DoRaise", 0, doist.tyme))
+    # the same doer objects under NEW Doists (always with do(); a fresh Doist per entry)
+    for fr in prog.get("fresh", []):
+        doist = BudgetDoist(tock=prog["tock"], limit=fr.get("limit"), real=False, tyme=fr["tyme"])
+        ctx.doist = doist
+        ctx.objs[0] = doist
+        ctx.live.discard(0)
+        try:
+            doist.do(doers=doers)
+            ctx.log.append(("DoReturn", 0, doist.tyme))
+            raised = "none"
+        except ScriptError:
+            raised = "script"
+            ctx.log.append(("DoRaise", 0, doist.tyme))
+        except KeyboardInterrupt:
+            raised = "kbd"
+            ctx.log.append(("DoRaise", 0, doist.tyme))
+        except Exception as ex:
+            raised = "escape:" + type(ex).__name__
+            ctx.log.append(("DoRaise", 0, doist.tyme))
     ids = sorted(int(k) for k in prog["defs"])
     inv = {id(o): i for i, o in ctx.objs.items()}
     def idlist(objs):
@@ -355,9 +378,12 @@ def to_coq(case, obs):
             eff = a["limit"]
         again.append(f"({coq_option(eff, _fl, 'float')}, {coq_option(a.get('tyme'), _fl, 'float')})")
     return ("{| SchedCase.c_prog := %s; SchedCase.c_trace := %s; SchedCase.c_dones := %s; SchedCase.c_tyme := %s; "
-            "SchedCase.c_scheds := %s; SchedCase.c_escape := %s; SchedCase.c_again := %s; SchedCase.c_async := %s |}" % (
+            "SchedCase.c_scheds := %s; SchedCase.c_escape := %s; SchedCase.c_again := %s; SchedCase.c_async := %s; "
+            "SchedCase.c_fresh := %s |}" % (
                 prog_to_coq(case), tr, dones, _hexfl(obs["tyme"]), scheds, coq_bool(obs["raised"].startswith("escape")),
-                coq_list(again, "option float * option float"), coq_bool(case.get("mode") == "ado")))
+                coq_list(again, "option float * option float"), coq_bool(case.get("mode") == "ado"),
+                coq_list([f"({coq_option(fr.get('limit'), _fl, 'float')}, {_fl(fr['tyme'])})" for fr in case.get("fresh", [])],
+                         "option float * float")))
 
 
 # ----------------------------------------------------------------------------- trace utilities for oracles
@@ -700,3 +726,92 @@ def add_reruns(rng, p, n=None):
     if rng.random() < 0.5:
         p["ctor"] = True
     return p
+
+
+def gen_broad(rng, n):
+    """A broad stream shared by all scheduler drivers: static and dynamic programs, with and without faults,
+    run with do() or ado(), optionally several runs on one Doist and runs of the same doers under new Doists."""
+    out = []
+    for _ in range(n):
+        r = rng.random()
+        if r < 0.45:
+            p = gen_static(rng, nest_depth=rng.choice([0, 2, 3]), faults=(rng.random() < 0.4),
+                           tocks=rng.choice(["any", "dyadic"]), limit_p=0.5)
+        else:
+            p = gen_dynamic(rng, faults=(rng.random() < 0.4), always_p=0.5, tocks=rng.choice(["dyadic", "any"]))
+        if rng.random() < 0.3:
+            p["mode"] = "ado"
+        r = rng.random()
+        if r < 0.2:
+            add_reruns(rng, p)
+        elif r < 0.4:
+            has_always = any(d["kind"] == "nest" and d["always"] for d in p["defs"].values())
+            p["fresh"] = [{"limit": (p["limit"] or 4 * p["tock"]) if has_always or rng.random() < 0.5 else None,
+                           "tyme": rng.choice([0.0, 0.0, 0.5, 20.0])}
+                          for _ in range(rng.choice([1, 1, 2]))]
+        out.append(p)
+    return out
+
+
+def runs_of(trace):
+    """Split a trace into the event lists of its runs (each ends with DoReturn/DoRaise)."""
+    out, cur = [], []
+    for e in trace:
+        cur.append(e)
+        if e[0] in ("DoReturn", "DoRaise"):
+            out.append(cur); cur = []
+    if cur:
+        out.append(cur)
+    return out
+
+
+def broad_oracle(case, obs):
+    """Checks that hold for every program of the broad stream (any mix of static/dynamic, faults, do/ado,
+    several runs): no foreign exception, nothing after the run ended, every doer recurs at most once per
+    cycle (strictly increasing tymes inside one life of one run)."""
+    if obs["raised"].startswith("escape"):
+        return f"unexpected exception escaped the run: {obs['raised']}"
+    tr = obs["trace"]
+    if not tr or tr[-1][0] not in ("DoReturn", "DoRaise"):
+        return "lifecycle events after the run ended (a still-alive doer was not exited before it returned)"
+    for n, run in enumerate(runs_of(tr)):
+        last = {}
+        for k, i, h in run:
+            if k == "Enter":
+                last.pop(i, None)
+            elif k == "Recur":
+                t = fl(h)
+                if i in last and not (t > last[i]):
+                    return f"run {n}: doer {i} recurred twice in the cycle at tyme {t}"
+                last[i] = t
+        # the relative order of two doers that both run in two cycles, with neither re-entered in between,
+        # is the same in both (the deque is only ever rotated; extend/remove keep the order of the others)
+        before = {}            # (a, b) -> True: a ran before b in the last cycle both ran in
+        cyc, cyc_t = [], None
+        def close_cycle():
+            for x in range(len(cyc)):
+                for y in range(x + 1, len(cyc)):
+                    a, b = cyc[x], cyc[y]
+                    if before.get((b, a)):
+                        return f"run {n}: doers {b} and {a} swapped their relative run order in the cycle at tyme {cyc_t}"
+                    before[(a, b)] = True
+            return None
+        for k, i, h in run:
+            if k == "Recur":
+                t = fl(h)
+                if t != cyc_t:
+                    why = close_cycle()
+                    if why:
+                        return why
+                    cyc, cyc_t = [], t
+                if i not in cyc:
+                    cyc.append(i)
+            elif k == "Enter":
+                for key in [key for key in before if i in key]:
+                    del before[key]
+                if i in cyc:
+                    cyc.remove(i)
+        why = close_cycle()
+        if why:
+            return why
+    return None
